@@ -69,9 +69,14 @@ def run(ctx):
     gs = prog.method("types::constructions::WinCons", None, "g_glshwi")
     ssc = Scope(prog, gs)
     rns = returned_nodes(gs.body)
-    ctx.require(len(rns) == 1, "WinCons::g_glshwi: expected a single return expression")
-    chain = fallback_chain(prog, ssc, ssc._rw(rns[0][1]))
     want = ["fround2(self.g_glshwi)", "g_glwi(self,db)"]
+    resid = [strip(ssc._rw(n_)) for _, n_ in rns if strip(ssc._rw(n_))[0] == "call" and short_callee(strip(ssc._rw(n_))[1]) == "from_residual"]
+    if len(rns) > 1 and resid and not any("self.g_glshwi" in show(r_) for r_ in resid):
+        # `x?` before the user value is looked at: the result is None whenever x is, whatever the user gave
+        chain = ["None when %s is None" % origin_desc(resid[0])[:60]] + [show(strip(ssc._rw(n_)))[:80] for _, n_ in rns if strip(ssc._rw(n_)) not in resid]
+    else:
+        ctx.require(len(rns) == 1, "WinCons::g_glshwi: expected a single return expression")
+        chain = fallback_chain(prog, ssc, ssc._rw(rns[0][1]))
     if chain == want:
         ctx.ok("c07.chain", "c07.chain|WinCons::g_glshwi", "g_gl;sh;wi = [round2(user value), g_gl;wi]", gs.loc())
     else:
